@@ -9,7 +9,7 @@ From RecordUpdate Require Import RecordSet.
 From V Require Import Base.U64 Base.Outcome Base.Sha256 Ssz.SszCore Beacon.Config Beacon.Schemas Beacon.State.
 From V Require Import Beacon.Spec.Helpers Beacon.Spec.Epoch Beacon.Run.
 From V Require Import Beacon.Impl.Flat Beacon.Impl.Registry Beacon.Impl.Justification Beacon.Impl.Final Beacon.Impl.Slashings
-                      Beacon.Impl.AltairAttester.
+                      Beacon.Impl.AltairAttester Beacon.Impl.Phase0Attester Beacon.Refine.AltairDomain.
 Import ListNotations RecordSetNotations.
 Local Open Scope N_scope.
 
@@ -33,7 +33,7 @@ Definition run_num (p : list N) (k : string) : N :=
   if is "INACTIVITY_PENALTY_QUOTIENT_BELLATRIX" then knob 11%nat else
   if is "INACTIVITY_PENALTY_QUOTIENT" then knob 11%nat else
   if is "MAX_COMMITTEES_PER_SLOT" then 4 else if is "TARGET_COMMITTEE_SIZE" then 4 else
-  if is "MAX_VALIDATORS_PER_COMMITTEE" then 2048 else if is "SHUFFLE_ROUND_COUNT" then 10 else
+  if is "MAX_VALIDATORS_PER_COMMITTEE" then 2048 else if is "SHUFFLE_ROUND_COUNT" then 2 else
   if is "HYSTERESIS_QUOTIENT" then 4 else if is "HYSTERESIS_DOWNWARD_MULTIPLIER" then 1 else
   if is "HYSTERESIS_UPWARD_MULTIPLIER" then 5 else if is "MIN_DEPOSIT_AMOUNT" then 1000000000 else
   if is "MAX_EFFECTIVE_BALANCE" then 32000000000 else if is "EFFECTIVE_BALANCE_INCREMENT" then 1000000000 else
@@ -59,6 +59,10 @@ Definition run_env (p : list N) : Env :=
   mk_env (run_cfg p) (fun _ _ _ => true) (fun _ _ _ => true) (fun _ => repeat 0 48) (fun _ _ _ => true).
 
 (* ---- the small states of a run ---- *)
+(* a pending attestation: bits, slot, committee index, beacon block root byte, source epoch, target epoch, target root
+   byte, inclusion delay, proposer index *)
+Record pend := mkPend { pt_bits : list bool; pt_slot : N; pt_index : N; pt_bbr : N; pt_src : N; pt_tgt : N; pt_tgt_root : N;
+                        pt_delay : N; pt_proposer : N }.
 Record mini := mkMini {
   m_fork : fork;
   m_slot : N;
@@ -73,13 +77,21 @@ Record mini := mkMini {
   m_cj : N * N;
   m_fin : N * N;
   m_votes : N;                      (* number of eth1 data votes *)
-  m_hist : N }.                     (* number of historical roots (pre-capella) / summaries (capella+) *)
+  m_hist : N;                       (* number of historical roots (pre-capella) / summaries (capella+) *)
+  m_patts : list pend;              (* phase0: previous / current epoch pending attestations *)
+  m_catts : list pend;
+  m_comms : list (N * N * list N) }. (* epc.GetBeaconCommittee(slot, index) for the pairs the attestations use *)
 
 Definition patt (b : N) : bytes := repeat b 32.
 Definition cp_of (x : N * N) : Checkpoint := mkCheckpoint (fst x) (patt (snd x)).
 Definition unflatten (i : N) (fl : FlatValidator) : Validator :=
   mkValidator (repeat (i mod 256) 48) (patt 0) (fl_effective_balance fl) (fl_slashed fl) (fl_activation_eligibility_epoch fl)
               (fl_activation_epoch fl) (fl_exit_epoch fl) (fl_withdrawable_epoch fl).
+Definition pend_value (a : pend) : value :=
+  VCont [VBits (pt_bits a);
+         VCont [VUint (pt_slot a); VUint (pt_index a); VBytes (patt (pt_bbr a));
+                cp_to_value (mkCheckpoint (pt_src a) (patt 0)); cp_to_value (mkCheckpoint (pt_tgt a) (patt (pt_tgt_root a)))];
+         VUint (pt_delay a); VUint (pt_proposer a)].
 Definition zero_eth1 : Eth1Data := mkEth1Data (patt 0) 0 (patt 0).
 Definition state_of_mini (m : mini) : BeaconState :=
   let alt := fork_ge (m_fork m) Altair in
@@ -90,7 +102,8 @@ Definition state_of_mini (m : mini) : BeaconState :=
     zero_eth1 (repeat zero_eth1 (N.to_nat (m_votes m))) 0
     (map (fun p => unflatten (fst p) (snd p)) (indexed (m_vals m))) (m_bals m)
     (map (fun i => patt (i + 31)) (seqN 0 16)) (m_slash m)
-    [] [] (if alt then m_pp m else []) (if alt then m_cp m else [])
+    (if alt then [] else map pend_value (m_patts m)) (if alt then [] else map pend_value (m_catts m))
+    (if alt then m_pp m else []) (if alt then m_cp m else [])
     (bits_of_byte 4 (m_bits m)) (cp_of (m_pj m)) (cp_of (m_cj m)) (cp_of (m_fin m))
     (if alt then m_scores m else []) empty_sc empty_sc (VCont []) 0 0
     (if cap then map (fun i => (patt (i + 201), patt (i + 151))) (seqN 0 (N.to_nat (m_hist m))) else []).
@@ -138,9 +151,13 @@ Inductive step :=
 | SEffBal | SEth1 | SSlashReset | SRandao | SHist | SPartRotate
 | SSlashings
 | SInactivity                                 (* altair.ProcessInactivityUpdates *)
-| SRewards.                                   (* altair.ProcessEpochRewardsAndPenalties *)
+| SRewards                                    (* altair.ProcessEpochRewardsAndPenalties *)
+| SRewards0.                                  (* phase0.ProcessEpochRewardsAndPenalties *)
 
 Definition opt_out {A} (x : option A) : outcome A := match x with Some a => Ok a | None => Err end.
+
+Definition comm_lookup (cs : list (N * N * list N)) (slot index : N) : option (list N) :=
+  match find (fun x => (fst (fst x) =? slot) && (snd (fst x) =? index)) cs with Some x => Some (snd x) | None => None end.
 
 Section Run.
   Variable p : list N.
@@ -169,6 +186,9 @@ Section Run.
     | SRewards =>
         match compute_epoch_attester_data c e flats st with
         | None => None | Some ad => process_epoch_rewards_and_penalties c f e ad st end
+    | SRewards0 =>
+        match compute_epoch_attester_data0 c (comm_lookup (m_comms m)) e flats st with
+        | None => None | Some ad => process_epoch_rewards_and_penalties0 c e ad st end
     end.
 
   (* the Spec function of a step (None where the step has no single spec counterpart) *)
@@ -190,6 +210,7 @@ Section Run.
     | SSlashings => Some (Some (Epoch.process_slashings E f st))
     | SInactivity => Some (Epoch.process_inactivity_updates E st)
     | SRewards => Some (Epoch.process_rewards_and_penalties E f st)
+    | SRewards0 => Some (Epoch.process_rewards_and_penalties E Phase0 st)
     end.
 End Run.
 
@@ -205,12 +226,23 @@ Definition attdata_eqb (a b : attdata_obs) : bool :=
 Definition deltas_obs := (list N * list N)%type.
 Definition deltas_eqb (a b : deltas_obs) : bool := nl_eqb (fst a) (fst b) && nl_eqb (snd a) (snd b).
 
+(* phase0 attester data: statuses (inclusion delay, attested proposer, flag byte), the three previous-epoch stakes and the
+   current-epoch target stake *)
+Definition p0data_obs := (list (N * N * N) * (N * N * N * N))%type.
+Definition p0data_eqb (a b : p0data_obs) : bool :=
+  let '(a1, (a2, a3, a4, a5)) := a in let '(b1, (b2, b3, b4, b5)) := b in
+  list_eqb (fun x y => (fst (fst x) =? fst (fst y)) && (snd (fst x) =? snd (fst y)) && (snd x =? snd y)) a1 b1 &&
+  (a2 =? b2) && (a3 =? b3) && (a4 =? b4) && (a5 =? b5).
+Definition p0_obs (ad : Phase0AttesterData) : p0data_obs :=
+  (map (fun s => (as_inclusion_delay s, as_attested_proposer s, flags_byte (as_flags s))) (p0_statuses ad),
+   (p0_prev_source_stake ad, p0_prev_target_stake ad, p0_prev_head_stake ad, p0_cur_target_stake ad)).
 Inductive icase :=
 | CRegData (p : list N) (flats : list FlatValidator) (ce : N) (go : gores regdata_obs)
 | CState (p : list N) (m : mini) (e : EpcView) (s : step) (go : gores obs)
 | CAttData (p : list N) (m : mini) (e : EpcView) (go : gores attdata_obs)
 | CFlagDeltas (p : list N) (m : mini) (e : EpcView) (flag_index : N) (leak : bool) (go : gores deltas_obs)
-| CInactDeltas (p : list N) (m : mini) (e : EpcView) (go : gores deltas_obs).
+| CInactDeltas (p : list N) (m : mini) (e : EpcView) (go : gores deltas_obs)
+| CP0Data (p : list N) (m : mini) (e : EpcView) (go : gores p0data_obs).
 
 Definition rd_obs (rd : RegistryProcessData) : regdata_obs :=
   (rd_to_set_activation_eligibility rd, rd_to_maybe_activate rd, rd_to_eject rd,
@@ -242,6 +274,10 @@ Definition impl_ok (cs : icase) : bool :=
                   | None => None
                   | Some ad => option_map d_obs (compute_inactivity_penalty_deltas (run_cfg p) (m_fork m) ad (inactivity_scores st))
                   end)) go
+  | CP0Data p m e go =>
+      let st := state_of_mini m in
+      agree p0data_eqb (opt_out (option_map p0_obs (compute_epoch_attester_data0 (run_cfg p) (comm_lookup (m_comms m)) e
+                                                       (flatten_validators (validators st)) st))) go
   end.
 
 (* the spec's values for the pure intermediate results *)
@@ -254,22 +290,62 @@ Definition spec_attdata (p : list N) (m : mini) : option attdata_obs :=
   | _, _, _, _ => None
   end.
 
+(* the documented domain of the steps (hypotheses of the refinement theorems that a generated state may violate):
+   - justification: the spec's own range assertion of get_block_root (state at the last slot of its epoch);
+   - inactivity / rewards: finalized epoch <= previous epoch (zrnt's uint64 finality delay wraps otherwise);
+   - rewards: no intermediate saturation (NoMidSaturation, see AltairDomain.v / design/C02-refine.md);
+   - altair intermediates: current epoch >= 1 (in the genesis epoch every consumer skips). *)
+Definition in_domain (p : list N) (m : mini) (s : step) : bool :=
+  let E := run_env p in let st := state_of_mini m in
+  let ok_range e := let s0 := compute_start_slot_at_epoch E e in (s0 <? slot st) && (slot st <=? s0 + SLOTS_PER_HISTORICAL_ROOT (cfg E)) in
+  match s with
+  | SJust _ => (get_current_epoch E st <=? 1) || (ok_range (get_previous_epoch E st) && ok_range (get_current_epoch E st))
+  | SInactivity => cp_epoch (finalized_checkpoint st) <=? get_previous_epoch E st
+  | SRewards => (cp_epoch (finalized_checkpoint st) <=? get_previous_epoch E st) && no_mid_saturationb E (m_fork m) st
+  | SRewards0 => cp_epoch (finalized_checkpoint st) <=? get_previous_epoch E st
+  | _ => true
+  end.
+
+(* the spec's four attesting balances of a phase0 state *)
+Definition spec_p0_stakes (p : list N) (m : mini) : option (N * N * N * N) :=
+  let E := run_env p in let st := state_of_mini m in
+  let pe := get_previous_epoch E st in let ce := get_current_epoch E st in
+  match get_matching_source_attestations E st pe, get_matching_target_attestations E st pe,
+        get_matching_head_attestations E st pe, get_matching_target_attestations E st ce with
+  | Some a, Some b, Some c0, Some d =>
+      match get_attesting_balance E st a, get_attesting_balance E st b, get_attesting_balance E st c0, get_attesting_balance E st d with
+      | Some x, Some y, Some z, Some w => Some (x, y, z, w)
+      | _, _, _, _ => None
+      end
+  | _, _, _, _ => None
+  end.
+
 Definition spec_ok (cs : icase) : bool :=
   match cs with
   | CRegData p flats ce go => true     (* judged through CState SRegistry *)
   | CState p m e s go =>
-      match spec_step p m s with
-      | None => true
-      | Some r => agree obs_eqb (opt_out (option_map (observe (m_fork m)) r)) go
-      end
-  | CAttData p m e go => agree attdata_eqb (opt_out (spec_attdata p m)) go
+      if in_domain p m s then
+        match spec_step p m s with
+        | None => true
+        | Some r => agree obs_eqb (opt_out (option_map (observe (m_fork m)) r)) go
+        end
+      else true
+  | CAttData p m e go =>
+      if get_current_epoch (run_env p) (state_of_mini m) =? 0 then true else agree attdata_eqb (opt_out (spec_attdata p m)) go
   | CFlagDeltas p m e fi leak go =>
       let E := run_env p in let st := state_of_mini m in
-      if Bool.eqb leak (is_in_inactivity_leak E st)
-      then agree deltas_eqb (opt_out (get_flag_index_deltas E st fi)) go
-      else true
+      if (get_current_epoch E st =? 0) || negb (Bool.eqb leak (is_in_inactivity_leak E st)) then true
+      else agree deltas_eqb (opt_out (get_flag_index_deltas E st fi)) go
   | CInactDeltas p m e go =>
-      agree deltas_eqb (opt_out (get_inactivity_penalty_deltas (run_env p) (m_fork m) (state_of_mini m))) go
+      if get_current_epoch (run_env p) (state_of_mini m) =? 0 then true
+      else agree deltas_eqb (opt_out (get_inactivity_penalty_deltas (run_env p) (m_fork m) (state_of_mini m))) go
+  | CP0Data p m e go =>
+      if get_current_epoch (run_env p) (state_of_mini m) =? 0 then true else
+      match go, spec_p0_stakes p m with
+      | GoOk (_, (a, b, c0, d)), Some (x, y, z, w) => (a =? x) && (b =? y) && (c0 =? z) && (d =? w)
+      | GoOk _, None => false
+      | _, _ => true
+      end
   end.
 
 Fixpoint mism (i : N) (cs : list icase) : list (N * N) :=
